@@ -230,7 +230,7 @@ func ruleOrd1(c *Ctx) {
 				if !producerSeen[pk] {
 					producerSeen[pk] = true
 					e.producers[w.fn] = cellName + " " + w.what
-					for _, ed := range c.P.Callers(w.fn) {
+					for _, ed := range c.P.RealCallers(w.fn) {
 						if ed.Site == nil {
 							continue
 						}
